@@ -418,6 +418,8 @@ pub struct OeWorld {
     pub merkle: BTreeMap<String, BTreeMap<String, (Vec<String>, Option<u32>)>>,
     /// Merkle mint arguments of the step being run: (stage, proof hashes, allocation)
     pub proof_ctx: Option<(Option<u32>, Vec<String>, Option<u32>)>,
+    /// cw2 (name, version) the minter stored at creation
+    pub own_cw2: (String, String),
 }
 
 impl OeWorld {
@@ -529,6 +531,7 @@ impl OeWorld {
             wl_code,
             merkle: BTreeMap::new(),
             proof_ctx: None,
+            own_cw2: (String::new(), String::new()),
         };
         let denom = cfg.fp.denom.clone();
         if cfg.wl != OeWl::None {
@@ -562,6 +565,7 @@ impl OeWorld {
         for d in [NATIVE, IBC] {
             w.initial_supply.insert(d.to_string(), chain::supply(&w.app, d));
         }
+        w.own_cw2 = crate::w_migrate::get_cw2(&w.app, &w.minter);
         Ok(w)
     }
 
@@ -990,6 +994,13 @@ pub enum OeOp {
         max_token_limit: Option<u32>,
         dev: Option<String>,
     },
+    /// migrate the open-edition minter to its own code id, sent by `who`; `stored` first
+    /// rewrites the cw2 (name, version) the contract holds
+    Migrate {
+        who: String,
+        #[serde(default)]
+        stored: Option<(String, String)>,
+    },
     // ---- base minter ----
     BaseMint { who: String, uri: String, funds: Vec<(String, u128)> },
     BaseUpdateStartTradingTime { who: String, t: Option<(u64, i64)> },
@@ -1014,6 +1025,7 @@ pub fn oe_op_kind(op: &OeOp) -> &'static str {
         OeOp::UpdatePerAddressLimit { .. } => "update_per_address_limit",
         OeOp::SetWhitelist { .. } => "set_whitelist",
         OeOp::SudoParams { .. } => "sudo_params",
+        OeOp::Migrate { .. } => "migrate",
         OeOp::BaseMint { .. } => "base_mint",
         OeOp::BaseUpdateStartTradingTime { .. } => "base_update_start_trading_time",
         OeOp::BaseSudoParams { .. } => "base_sudo_params",
@@ -1077,6 +1089,53 @@ impl OeWorld {
                 let f = self.factory.clone();
                 let r = chain::sudo(&mut self.app, &f, &msg);
                 return not_step(r.is_ok(), r.err());
+            }
+            OeOp::Migrate { who, stored } => {
+                if let Some((n, v)) = stored {
+                    let n = if n == "@own" { self.own_cw2.0.clone() } else { n.clone() };
+                    let v = if v == "@own" { self.own_cw2.1.clone() } else { v.clone() };
+                    crate::w_migrate::set_cw2(&mut self.app, &self.minter, &n, &v);
+                }
+                let (name, version) = crate::w_migrate::get_cw2(&self.app, &self.minter);
+                let now = chain::now(&self.app);
+                let code_id = self.factory_params()["code_id"].as_u64().unwrap();
+                let admin = self.app.wrap().query_wasm_contract_info(self.minter.to_string()).ok().and_then(|i| i.admin);
+                let is_admin = admin.as_deref() == Some(who.as_str());
+                let before_digest = chain::storage_digest(&self.app, &self.minter);
+                let before_bal = self.balances_raw();
+                let m = self.minter.clone();
+                let sender = Addr::unchecked(who.clone());
+                let res = match crate::util::catch(|| self.app.migrate_contract(sender, m, &json!({}), code_id)) {
+                    Ok(Ok(_)) => Ok(()),
+                    Ok(Err(e)) => Err(format!("{:#}", e)),
+                    Err(p) => Err(p),
+                };
+                let ok = res.is_ok();
+                let fp = self.fp_coq();
+                let wv_after = self.cur_wl_view(who);
+                let obs = self.observe();
+                let obs_coq = coq_list(&obs.iter().map(|x| x.to_string()).collect::<Vec<_>>());
+                let bal = self.balances_coq();
+                let coq = format!(
+                    "(OIMigrate (mkOMig {} {} {} {} {} {} {} {} {}))",
+                    now,
+                    coq_bool(name == self.own_cw2.0),
+                    crate::w_sale::coq_version(&version),
+                    coq_bool(is_admin),
+                    coq_bool(ok),
+                    fp,
+                    wv_after,
+                    obs_coq,
+                    bal
+                );
+                let mut err = res.err();
+                if !ok && (chain::storage_digest(&self.app, &self.minter) != before_digest || self.balances_raw() != before_bal) {
+                    err = Some(format!("STATE-CHANGED-ON-FAILURE: {}", err.unwrap_or_default()));
+                }
+                if ok && self.balances_raw() != before_bal {
+                    err = Some("MIGRATE-MOVED-FUNDS".into());
+                }
+                return StepOut { coq: Some(coq), ok, err, minted: None, is_minter_step: true };
             }
             OeOp::BaseMint { .. } | OeOp::BaseUpdateStartTradingTime { .. } | OeOp::BaseSudoParams { .. } | OeOp::BaseSetCreator { .. } => {
                 return not_step(false, Some("base op on an open-edition world".into()));
@@ -1302,7 +1361,8 @@ impl OeWorld {
         let accts: Vec<String> = self.count_accounts().iter().map(|a| self.addrs.id(a).to_string()).collect();
         let nft = self.nft_cfg_coq();
         let stored = self.stored_tokens_coq();
-        format!("(OECaseM {} {} {} {} {} {} {})", nft, self.v.coq(), init, init_bal, coq_list(&accts), coq_list(steps), stored)
+        let items: Vec<String> = steps.iter().map(|s| crate::w_sale::wrap_item(s, "(mkOStep", "OIStep")).collect();
+        format!("(OECaseM {} {} {} {} {} {} {})", nft, self.v.coq(), init, init_bal, coq_list(&accts), coq_list(&items), stored)
     }
 }
 
@@ -1584,5 +1644,19 @@ pub fn uri_shape_ok(u: &str) -> bool {
                 && scheme.chars().all(|c| c.is_ascii_alphanumeric() || c == '+' || c == '-' || c == '.')
         }
         None => false,
+    }
+}
+
+/// insert migrations into a generated open-edition history (see w_sale::sprinkle_migrates)
+pub fn sprinkle_oe_migrates(rng: &mut Rng, ops: &mut Vec<OeOp>, permille: u64) {
+    let pool = crate::w_sale::migrate_version_pool();
+    let mut i = 0;
+    while i <= ops.len() {
+        if rng.below(1000) < permille {
+            let (who, stored) = crate::w_sale::gen_migrate_args(rng, &pool);
+            ops.insert(i, OeOp::Migrate { who, stored });
+            i += 1;
+        }
+        i += 1;
     }
 }
